@@ -69,6 +69,28 @@ def type_facts(s):
             bl = "raised %r" % e
         if bl != ref.byte_len():
             out.append(("byte-length", "%s: byte_length_static()=%r, reference byte_len()=%r" % (S.sdk_str(s), bl, ref.byte_len())))
+    # the other direction: a TypeSpec obtained FROM the reference type / a signature string describes the same type
+    txt = str(ref)
+    for how, f in (
+        ("type_spec_from_algosdk(ABIType)", lambda: pt.abi.type_spec_from_algosdk(ref)),
+        ("type_specs_from_signature arg", lambda: pt.abi.type_specs_from_signature("m(%s)void" % txt)[0][0]),
+        ("type_specs_from_signature return", lambda: pt.abi.type_specs_from_signature("m()%s" % txt)[1]),
+    ):
+        try:
+            back = f()
+        except Exception as e:  # noqa
+            out.append(("from-reference-crash", "%s raised %r for %s" % (how, e, txt)))
+            continue
+        if str(back) != txt:
+            out.append(("from-reference-string", "%s of %r prints %r" % (how, txt, str(back))))
+        elif back.is_dynamic() != ref.is_dynamic() or (not ref.is_dynamic() and back.byte_length_static() != ref.byte_len()):
+            out.append(("from-reference-facts", "%s of %r: is_dynamic/byte length differ from the reference" % (how, txt)))
+    try:
+        rt = pt.abi.algosdk_from_type_spec(spec)
+        if str(rt) != txt:
+            out.append(("to-reference-string", "algosdk_from_type_spec(%s) prints %r" % (txt, str(rt))))
+    except Exception as e:  # noqa
+        out.append(("to-reference-crash", "algosdk_from_type_spec raised %r for %s" % (e, txt)))
     return out
 
 
@@ -118,18 +140,33 @@ def run_case(case, col=None):
         # expression value must make the run fail iff out of range
         if 0 <= val < 2**64:
             for v in case["versions"]:
+                form = case.get("form", "btoi")
+
                 def build():
                     x = S.pt_spec(pt, leaf).new_instance()
-                    return pt.Seq(x.set(pt.Btoi(pt.Bytes(val.to_bytes(8, "big")))), pt.Log(x.encode()), pt.Int(1)), []
+                    if form == "int-literal":
+                        e = pt.Int(val)
+                    elif form == "sum" and val >= 1:
+                        e = pt.Int(val - 1) + pt.Int(1)
+                    elif form == "if":
+                        e = pt.If(pt.Int(1), pt.Int(val), pt.Int(0))
+                    else:
+                        e = pt.Btoi(pt.Bytes(val.to_bytes(8, "big")))
+                    return pt.Seq(x.set(e), pt.Log(x.encode()), pt.Int(1)), []
 
                 kind, teal, _a = compile_prog(build, v)
                 if kind != "teal":
                     continue
                 r = run_prog(tp.parse(teal), Ctx())
                 if val >= 2**bits and r.verdict != "fail":
-                    out.append(("overflow-expr-not-failing", "v%d: %s.set(expr=%d) ran to %s instead of failing" % (v, S.sdk_str(leaf), val, diff.describe_result(r))))
+                    out.append(("overflow-expr-not-failing", "v%d: %s.set(<%s expression of value %d>) ran to %s instead of failing" % (v, S.sdk_str(leaf), form, val, diff.describe_result(r))))
                 if val < 2**bits and r.verdict == "fail":
-                    out.append(("in-range-expr-failing", "v%d: %s.set(expr=%d) failed: %s" % (v, S.sdk_str(leaf), val, r.panic_msg)))
+                    out.append(("in-range-expr-failing", "v%d: %s.set(<%s expression of value %d>) failed: %s" % (v, S.sdk_str(leaf), form, val, r.panic_msg)))
+                if val < 2**bits and r.verdict != "fail":
+                    want_log = val.to_bytes(bits // 8, "big")
+                    got_logs = [e[1] for e in r.events if e[0] == "log"]
+                    if got_logs != [want_log]:
+                        out.append(("in-range-expr-encoding", "v%d: %s.set(<%s expression of value %d>) encodes to %s, expected %s" % (v, S.sdk_str(leaf), form, val, [x.hex() for x in got_logs], want_log.hex())))
         return out
     v = S.unjson(s, case["value"])
     out += type_facts(s)
@@ -267,7 +304,26 @@ def case_strategy(draw, tier):
     return {"shape": s, "value": S.jsonable(s, v), "plan": plan, "configs": cfgs}
 
 
+def overflow_grid(tier):
+    """the finite grid of width x boundary value x expression form (enumerated, not sampled)"""
+    out = []
+    for bits in ("byte", 8, 16, 32, 64):
+        b = 8 if bits == "byte" else bits
+        for val in sorted({0, 1, 2**b - 1, 2**b, 2**b + 1, 2 ** (b + 1), 2**64 - 1, -1, 2**64} | ({2 ** (b + 8) - 1} if b < 56 else set())):
+            for form in ("btoi", "int-literal", "sum", "if"):
+                out.append({"kind": "overflow", "shape": ["uint", b], "bits": bits, "value": val, "form": form, "versions": VERSIONS[tier][:2] if tier == "quick" else VERSIONS[tier]})
+    return out
+
+
 def shard(tier, seedv, k, n, col: Collector):
+    for idx, case in enumerate(overflow_grid(tier)):
+        if idx % n != k:
+            continue
+        col.case()
+        col.cls("kind:overflow-grid")
+        for b, d in run_case(case, col):
+            col.fail(b, d, case)
+
     def body(case):
         col.case()
         res = run_case(case, col)
